@@ -18,13 +18,24 @@
          iff it contains the separator or a quote, double the quotes), CsvRows the reader (quote state per line);
          TLC checks CsvRows(CsvText(rows)) = Norm(rows) for every generated table.
 
+   Growth (the behaviour around the two relations; sections further down):
+   INI object  the IniFile object as a state machine (ApiStep): open / set / operator[] reads that must not persist
+               anything / current section / Qt-style arrays / write() / write(name) / a write that fails / destructor,
+               with has(), operator()(name, default), sectionNames(), values() as observations; a UTF-8 byte order
+               mark is not part of the first line; a write adds no key nobody set (KeysOK) and keeps the sections.
+   CSV dialect separator / decimal symbol / quote-everything / flushEvery / short rows ended with "\n" on the writing
+               side (CsvWOK), and a general reader (CsvRead: byte order mark, CR LF, detection of separator, decimal
+               symbol and header line, ragged rows, trailing separator, last row without newline, readAs types) for
+               files produced by other tools; ARFF output.
+
    R: MC_IniCsv_*.cfg emit one case per transition (text + edits + expected lookups / table + expected file text)
       -> harness/c18_replay, which also logs what the real classes produced;
    V: Trace_IniCsv validates those logs and the logs of the random recorder harness/c18_record: TLC evaluates
-      IniOK / CsvRows / Norm on the bytes the implementation wrote and read.                                      *)
+      IniOK / CsvRows / Norm on the bytes the implementation wrote and read; for the growth parts: ApiStep call by
+      call with WriteOK on the real bytes of every write, CsvWOK / ArffOK / CsvRead on the real files.            *)
 EXTENDS Integers, Sequences, FiniteSets, TLC, Json, SequencesExt
 
-CONSTANTS Part,        \* "ini" or "csv": which generator runs in model-checking mode
+CONSTANTS Part,        \* which generator runs in model-checking mode: "ini", "csv"; growth: "api", "csvw", "csvr" ("trace": none)
           IniLines,    \* line alphabet (set of byte strings) of generated INI texts
           MaxLines,    \* maximal number of lines of a generated text
           SetNames,    \* <<section, key>> pairs the generated set() calls address
@@ -37,8 +48,12 @@ VARIABLES itext,       \* INI: lines so far
           istyle,      \* INI: <<newline, final>>: newline "LF"/"CRLF", final = text ends with a newline
           isets,       \* INI: set() calls so far: sequence of [sec, key, val]
           crows,       \* CSV: rows so far (the last one possibly incomplete)
-          ccols        \* CSV: number of columns
-vars == <<itext, istyle, isets, crows, ccols>>
+          ccols,       \* CSV: number of columns
+          ibom,        \* growth: the generated text starts with a UTF-8 byte order mark
+          copt,        \* growth: CSV writer options / reader dialect of the generated case
+          ast,         \* growth: the IniFile object and its files (see ApiStart)
+          ahist        \* growth: history - the mutating calls made so far (with their expected results)
+vars == <<itext, istyle, isets, crows, ccols, ibom, copt, ast, ahist>>
 
 LF == 10
 CR == 13
@@ -60,14 +75,20 @@ Lines(t) == LET ps == Positions(t, LF)
                          ELSE IF ps[k] > From(k) /\ t[ps[k] - 1] = CR THEN ps[k] - 2 ELSE ps[k] - 1
             IN [k \in 1..(n + 1) |-> SubSeq(t, From(k), To(k))]
 IsBlank(c) == c \in {32, 9, 10, 13}
-Trim(s) == LET nb == {i \in 1..Len(s) : ~IsBlank(s[i])}
-           IN IF nb = {} THEN <<>>
-              ELSE SubSeq(s, CHOOSE i \in nb : \A j \in nb : i <= j, CHOOSE i \in nb : \A j \in nb : i >= j)
-FirstPos(s, b) == LET ps == {i \in 1..Len(s) : s[i] = b} IN IF ps = {} THEN 0 ELSE CHOOSE i \in ps : \A j \in ps : i <= j
+\* (first / last element through the sorted sequence: a CHOOSE over all pairs is quadratic, and recorded lines have up to 2500 bytes)
+Trim(s) == LET nb == SetToSortSeq({i \in 1..Len(s) : ~IsBlank(s[i])}, <)
+           IN IF nb = <<>> THEN <<>> ELSE SubSeq(s, nb[1], nb[Len(nb)])
+FirstPos(s, b) == LET ps == SetToSortSeq({i \in 1..Len(s) : s[i] = b}, <) IN IF ps = <<>> THEN 0 ELSE ps[1]
+
+\* a UTF-8 byte order mark in front of a text is not part of its first line
+Bom == <<239, 187, 191>>
+HasBom(t) == IF Len(t) >= 3 THEN SubSeq(t, 1, 3) = Bom ELSE FALSE
+Body(t) == IF HasBom(t) THEN SubSeq(t, 4, Len(t)) ELSE t
+ILines(t) == Lines(Body(t))
 
 -------------------------------------------------------------------------------
 (* INI: classification of a line *)
-FirstInk(l) == LET nb == {i \in 1..Len(l) : ~IsBlank(l[i])} IN IF nb = {} THEN 0 ELSE l[CHOOSE i \in nb : \A j \in nb : i <= j]
+FirstInk(l) == LET nb == SetToSortSeq({i \in 1..Len(l) : ~IsBlank(l[i])}, <) IN IF nb = <<>> THEN 0 ELSE l[nb[1]]
 IsHeader(l)  == Len(l) >= 2 /\ l[1] = 91 /\ FirstPos(l, 93) > 0
 HeaderName(l) == SubSeq(l, 2, FirstPos(l, 93) - 1)
 IsComment(l) == FirstInk(l) \in {35, 59}
@@ -81,7 +102,7 @@ SecAt(ls, i) == LET hs == {j \in 1..i : IsHeader(ls[j])}
 \* Parse: the entries in file order
 AssignsL(ls) == LET idx == SetToSortSeq({i \in 1..Len(ls) : IsKV(ls[i])}, <)
                 IN [k \in 1..Len(idx) |-> [sec |-> SecAt(ls, idx[k]), key |-> KeyOf(ls[idx[k]]), val |-> ValOf(ls[idx[k]])]]
-Assigns(text) == AssignsL(Lines(text))
+Assigns(text) == AssignsL(ILines(text))
 \* value of sec/key: the last entry wins; an absent key reads as the empty string
 Lookup(as, sec, key) == LET m == {i \in 1..Len(as) : as[i].sec = sec /\ as[i].key = key}
                         IN IF m = {} THEN <<>> ELSE as[CHOOSE i \in m : \A j \in m : i >= j].val
@@ -97,22 +118,24 @@ ItemsL(ls, touched) ==
                               ELSE [sec |-> SecAt(ls, idx[k]), key |-> KeyOf(ls[idx[k]])]]
 
 \* (Assigns(text) \o sets is the history a reader must account for: later entries and later set() calls win)
-ValuesOK(text, sets, w) == LET at == Assigns(text) \o sets
+\* (a value is what follows '=' without the blanks around it: "color = white" in the documentation)
+TrimSets(sets) == [i \in 1..Len(sets) |-> [sets[i] EXCEPT !.val = Trim(@)]]
+ValuesOK(text, sets, w) == LET at == Assigns(text) \o TrimSets(sets)
                                aw == Assigns(w)
                            IN \A sk \in KeysOf(at) : Lookup(aw, sk[1], sk[2]) = Lookup(at, sk[1], sk[2])
-OrderOK(text, sets, w)  == ItemsL(Lines(w), Touched(sets)) = ItemsL(Lines(text), Touched(sets))
+OrderOK(text, sets, w)  == ItemsL(ILines(w), Touched(sets)) = ItemsL(ILines(text), Touched(sets))
 IniOK(text, sets, w)    == ValuesOK(text, sets, w) /\ OrderOK(text, sets, w)
 
 \* a plain key name (no "section/") addresses the top section when the text has top-level entries or no header at all
-PlainOK(text) == LET ls == Lines(text) IN
+PlainOK(text) == LET ls == ILines(text) IN
                  \/ {i \in 1..Len(ls) : IsHeader(ls[i])} = {}
                  \/ \E i \in 1..Len(ls) : IsKV(ls[i]) /\ SecAt(ls, i) = Top
 
-HasTopEntries(text) == LET ls == Lines(text) IN \E i \in 1..Len(ls) : IsKV(ls[i]) /\ SecAt(ls, i) = Top
+HasTopEntries(text) == LET ls == ILines(text) IN \E i \in 1..Len(ls) : IsKV(ls[i]) /\ SecAt(ls, i) = Top
 
 \* the defect of the unchanged tree (DESIGN.md section 7): the reader stops before a last line that has no newline
 EndsWithNewline(text) == text = <<>> \/ text[Len(text)] = LF
-LastLineHazard(text) == ~EndsWithNewline(text) /\ IsKV(Lines(text)[Len(Lines(text))])
+LastLineHazard(text) == ~EndsWithNewline(text) /\ IsKV(ILines(text)[Len(ILines(text))])
 
 (* a reference writer: touched entries rewritten in place, new entries added (top-level ones in front, the others under
    a header appended at the end).  Any writer that satisfies IniOK is acceptable; this one shows the requirement is
@@ -120,7 +143,7 @@ LastLineHazard(text) == ~EndsWithNewline(text) /\ IsKV(Lines(text)[Len(Lines(tex
 JoinLF(ls) == Flat([i \in 1..Len(ls) |-> ls[i] \o <<LF>>])
 KVLine(key, val) == key \o <<61>> \o val
 RefWrite(text, sets) ==
-    LET ls0 == Lines(text)
+    LET ls0 == ILines(text)
         ls == IF ls0[Len(ls0)] = <<>> THEN SubSeq(ls0, 1, Len(ls0) - 1) ELSE ls0          \* no phantom last line
         at == AssignsL(ls) \o sets
         old == KeysOf(AssignsL(ls))
@@ -130,6 +153,7 @@ RefWrite(text, sets) ==
                        THEN KVLine(KeyOf(ls[i]), Lookup(at, SecAt(ls, i), KeyOf(ls[i]))) ELSE ls[i]]
         \* new keys, each once, in the order of their first set()
         firsts == SetToSortSeq({i \in 1..Len(sets) : <<sets[i].sec, sets[i].key>> \notin old
+                                    /\ Trim(Lookup(at, sets[i].sec, sets[i].key)) # <<>>      \* (a new key without value: not written)
                                     /\ \A j \in 1..(i - 1) : <<sets[j].sec, sets[j].key>> # <<sets[i].sec, sets[i].key>>}, <)
         news == [k \in 1..Len(firsts) |-> sets[firsts[k]]]
         newTop == Filter(news, LAMBDA s : s.sec = Top)
@@ -138,6 +162,100 @@ RefWrite(text, sets) ==
         back == Flat([k \in 1..Len(newSec) |-> << <<91>> \o newSec[k].sec \o <<93>>,
                                                   KVLine(newSec[k].key, Lookup(at, newSec[k].sec, newSec[k].key)) >>])
     IN IF sets = <<>> THEN text ELSE JoinLF(front \o inplace \o back)
+
+-------------------------------------------------------------------------------
+(* INI growth: what a write may do besides IniOK, and the IniFile object as a state machine *)
+NoSec == <<0>>                 \* in a name: no "section/" part (resolved against the current section); as current section: unknown
+Slash == 47
+DefaultVal == <<1, 68>>        \* the default handed to operator()(name, default); no value of any scope equals it
+HeaderNames(text) == LET ls == ILines(text) IN {HeaderName(ls[i]) : i \in {j \in 1..Len(ls) : IsHeader(ls[j])}} \ {Top}
+SetSecs(sets) == {sets[i].sec : i \in 1..Len(sets)}
+\* keys a set() left without value: a writer may leave them out (has() of a fresh object is then not determined)
+EmptySet(sets) == {k \in KeysOf(sets) : Trim(Lookup(sets, k[1], k[2])) = <<>>}
+\* a write adds no key nobody set ("persist exactly what was set": reading a missing name is not a modification)
+KeysOK(text, sets, w) == KeysOf(Assigns(w)) \subseteq (KeysOf(Assigns(text)) \cup KeysOf(sets))
+\* ... keeps every section and adds the sections of what was set (those of keys without value may be left out)
+SectionsOK(text, sets, w) == LET hw == HeaderNames(w) IN
+                             /\ (HeaderNames(text) \cup ({k[1] : k \in (KeysOf(sets) \ EmptySet(sets))} \ {Top})) \subseteq hw
+                             /\ hw \subseteq (HeaderNames(text) \cup SetSecs(sets))
+WriteOK(text, sets, w) == IniOK(text, sets, w) /\ KeysOK(text, sets, w) /\ SectionsOK(text, sets, w)
+
+(* The object.  disk/exists: the file it is bound to; opt: keys of that file a conforming writer may or may not have
+   written (model checking only: the reference writer leaves them out; recorded bytes speak for themselves);
+   open, sw (the constructor's shouldwrite), base = the text it was opened on (bmem, bsecs: its entries and section names), bopt = opt at that time,
+   sets = set() calls since then (sections resolved), cur = current section for plain names (Top when the text has
+   top-level entries or no header, otherwise not documented until section()/arraysize() name one),
+   reads = missing names read through the non-const operator[], named = sections named by section() / arraysize()
+   (whether such names show up in sectionNames() / values() is not documented), rp / fw = the shape of the finding
+   ReadPersisted / FailedWriteLines occurred. *)
+ApiStart(text, ex) == [disk |-> text, exists |-> ex, opt |-> {}, open |-> FALSE, sw |-> TRUE,
+                       base |-> <<>>, bmem |-> <<>>, bsecs |-> {}, bopt |-> {}, sets |-> <<>>, cur |-> NoSec, reads |-> {}, named |-> {}, rp |-> FALSE, fw |-> FALSE]
+ApiMem(a) == a.bmem \o a.sets
+ApiSec(a, sec) == IF sec = NoSec THEN a.cur ELSE sec
+ApiHas(a, sec, key) == LET k == <<sec, key>> IN
+                       IF k \in a.bopt /\ k \notin KeysOf(a.sets) THEN "u"
+                       ELSE IF k \in KeysOf(ApiMem(a)) THEN "t"
+                       ELSE IF k \in a.reads THEN "u" ELSE "f"
+RECURSIVE ToInt(_)
+ToInt(s) == IF s = <<>> THEN 0 ELSE IF IsBlank(s[Len(s)]) \/ s[Len(s)] < 48 \/ s[Len(s)] > 57 THEN 0
+            ELSE 10 * ToInt(SubSeq(s, 1, Len(s) - 1)) + (s[Len(s)] - 48)
+ArrayKey(idx, field) == <<48 + idx + 1, 92>> \o field          \* "<index+1>\<field>" (Qt style arrays), index < 9
+
+ApiOpen(a, sw) == LET t == IF a.exists THEN a.disk ELSE <<>> IN
+                  [a EXCEPT !.open = TRUE, !.sw = sw, !.base = t, !.bmem = Assigns(t), !.bsecs = HeaderNames(t), !.bopt = a.opt, !.sets = <<>>, !.reads = {}, !.named = {},
+                            !.cur = IF PlainOK(t) THEN Top ELSE NoSec]
+\* (w = [bytes, exists]: what is on disk after a write)
+ApiWritten(a, w) == [a EXCEPT !.disk = w.bytes, !.exists = w.exists, !.opt = IF a.sets = <<>> THEN @ ELSE EmptySet(a.sets) \ KeysOf(Assigns(w.bytes))]
+ApiClose(a, w) == IF a.sw THEN [ApiWritten(a, w) EXCEPT !.open = FALSE] ELSE [a EXCEPT !.open = FALSE]
+\* which calls the documentation defines in state a
+ApiEnabled(a, m) ==
+    IF m.m = "open" THEN ~a.open
+    ELSE /\ a.open
+         /\ CASE m.m \in {"set", "get"} -> ApiSec(a, m.sec) # NoSec
+              [] m.m = "aget" -> a.cur # NoSec
+              [] m.m = "write" -> a.sw
+              [] m.m = "writeTo" -> a.sw /\ a.sets # <<>>
+              [] OTHER -> TRUE
+\* the shape of the finding ReadPersisted: a write while a name that was only read has a new, non-empty neighbour in its section
+ReadRisk(a) == \E k \in (a.reads \ KeysOf(ApiMem(a))) : \E i \in 1..Len(a.sets) :
+                  /\ a.sets[i].sec = k[1] /\ <<a.sets[i].sec, a.sets[i].key>> \notin KeysOf(a.bmem)
+                  /\ Trim(Lookup(a.sets, a.sets[i].sec, a.sets[i].key)) # <<>>
+\* w: what a write left on disk, [bytes, exists] (model checking: the reference writer's; trace validation: the real ones)
+ApiStep0(a, m, w) ==
+    CASE m.m = "open" -> ApiOpen(a, m.sw)
+      [] m.m = "set" -> [a EXCEPT !.sets = Append(@, [sec |-> ApiSec(a, m.sec), key |-> m.key, val |-> m.val])]
+      [] m.m = "get" -> IF <<ApiSec(a, m.sec), m.key>> \in KeysOf(ApiMem(a)) THEN a ELSE [a EXCEPT !.reads = @ \cup {<<ApiSec(a, m.sec), m.key>>}]
+      [] m.m \in {"cur", "asize"} -> [a EXCEPT !.cur = m.sec, !.named = @ \cup {m.sec}]
+      [] m.m = "write" -> ApiWritten(a, w)
+      [] m.m = "close" -> ApiClose(a, w)
+      [] m.m = "reopen" -> ApiOpen(ApiClose(a, w), TRUE)
+      [] OTHER -> a                                                            \* aget, writeTo, writeBad
+ApiStep(a, m, w) == ApiStep0([a EXCEPT !.rp = @ \/ (m.m \in {"write", "writeTo", "close", "reopen"} /\ a.open /\ a.sw /\ a.sets # <<>> /\ ReadRisk(a)),
+                                       !.fw = @ \/ (m.m = "writeBad" /\ a.open /\ a.sets # <<>>)], m, w)
+\* what a call returns
+ApiRet(a, m) == CASE m.m = "get" -> Lookup(ApiMem(a), ApiSec(a, m.sec), m.key)
+                  [] m.m = "asize" -> ToInt(Lookup(ApiMem(a), m.sec, <<115, 105, 122, 101>>))
+                  [] m.m = "aget" -> Lookup(ApiMem(a), a.cur, ArrayKey(m.idx, m.field))
+                  [] OTHER -> <<>>
+\* what the const queries answer on the object: per probe name operator[], has() ("u": not determined) and the admissible
+\* answers of operator()(name, DefaultVal); sectionNames() (at least secs, at most secs and secsMay); values() (at least vals,
+\* besides them only names of valsMay, without value).  Top-level entries are left out of values(): their spelling is not documented.
+ApiObs(a, probes) ==
+    LET ps == SelectSeq(probes, LAMBDA p : p.sec # NoSec \/ a.cur # NoSec)
+        mem == ApiMem(a)
+        optk == a.bopt \ KeysOf(a.sets)
+        maybe == optk \cup (a.reads \ KeysOf(mem))
+        kseq == SetToSeq({k \in (KeysOf(mem) \ optk) : k[1] # Top})
+    IN [q |-> [i \in 1..Len(ps) |->
+                 LET sec == ApiSec(a, ps[i].sec)
+                     h == ApiHas(a, sec, ps[i].key)
+                     v == Lookup(mem, sec, ps[i].key)
+                 IN [sec |-> ps[i].sec, key |-> ps[i].key, v |-> v, has |-> h,
+                     dflt |-> IF h = "t" THEN <<v>> ELSE IF h = "f" THEN <<DefaultVal>> ELSE <<v, DefaultVal>>]],
+        secs |-> SetToSeq((a.bsecs \cup SetSecs(a.sets)) \ {Top}),
+        secsMay |-> SetToSeq({k[1] : k \in maybe} \cup a.named \cup {Top}),
+        vals |-> [i \in 1..Len(kseq) |-> [name |-> kseq[i][1] \o <<Slash>> \o kseq[i][2], val |-> Lookup(mem, kseq[i][1], kseq[i][2])]],
+        valsMay |-> SetToSeq({k[1] \o <<Slash>> \o k[2] : k \in maybe})]
 
 -------------------------------------------------------------------------------
 (* CSV *)
@@ -164,8 +282,10 @@ NumText(c) ==
 \* the defect of the unchanged tree found by this check: the reader scales the integer mantissa by pow(10, e) with
 \* e = x - (digits - 1); below about -307 that power is subnormal or zero and the digits are lost
 TinyScale(c) == c.t = "n" /\ c.digs # <<0>> /\ (c.x < -4) /\ c.x - (Len(c.digs) - 1) < -307
+\* (a number cell is given by sign/digits/exponent in the generators and by its "%.15g" text in recorded events)
+NumS(c) == IF "digs" \in DOMAIN c THEN NumText(c) ELSE c.s
 \* what a reader returns for a written cell: the type and the text (numbers: the 15 significant digits written)
-Norm(c) == [t |-> c.t, s |-> IF c.t = "n" THEN NumText(c) ELSE c.s]
+Norm(c) == [t |-> c.t, s |-> IF c.t = "n" THEN NumS(c) ELSE c.s]
 NormRows(rows) == [i \in 1..Len(rows) |-> [j \in 1..Len(rows[i]) |-> Norm(rows[i][j])]]
 
 \* writer: a string is quoted iff it contains the separator or a quote; quotes are doubled
@@ -204,19 +324,159 @@ CsvRows(file) == LET ls == Lines(file)
 CsvOK(rows, n) == CsvRows(CsvText(rows, n)) = NormRows(rows)
 
 -------------------------------------------------------------------------------
+(* CSV growth: dialects (separator, decimal symbol, quoting), the general reader, ARFF *)
+Tab == 9
+Semi == 59
+Dot == 46
+NoneCell == [t |-> "0", s |-> <<>>]             \* operator[] outside the row / for an unknown column name
+ReplaceByte(s, a, b) == [i \in 1..Len(s) |-> IF s[i] = a THEN b ELSE s[i]]
+Doubled(x, q) == Flat([i \in 1..Len(x) |-> IF x[i] = q THEN <<q, q>> ELSE <<x[i]>>])
+\* writer with options o = [sep, dec, q]: numbers with the decimal symbol; a string between quotes iff useQuotes() (o.q) or it
+\* contains the separator or a quote
+CellTextO(c, o) == IF c.t = "n" THEN ReplaceByte(NumS(c), Dot, o.dec)
+                   ELSE IF o.q \/ Has(c.s, Quote) \/ Has(c.s, o.sep) THEN <<Quote>> \o Doubled(c.s, Quote) \o <<Quote>> ELSE c.s
+JoinSep(fs, sep) == Flat([j \in 1..Len(fs) |-> (IF j > 1 THEN <<sep>> ELSE <<>>) \o fs[j]])
+RowTextO(row, o) == JoinSep([j \in 1..Len(row) |-> CellTextO(row[j], o)], o.sep)
+CsvTextO(names, rows, o) == JoinSep(names, o.sep) \o <<LF>> \o Flat([i \in 1..Len(rows) |-> RowTextO(rows[i], o) \o <<LF>>])
+
+\* reader for a known dialect
+FieldEndsS(l, sep) == SetToSortSeq({i \in 1..Len(l) : l[i] = sep /\ QuotesBefore(l, i) % 2 = 0} \cup {Len(l) + 1}, <)
+RawFields(l, sep) == LET ends == FieldEndsS(l, sep) IN
+                     [k \in 1..Len(ends) |-> SubSeq(l, IF k = 1 THEN 1 ELSE ends[k - 1] + 1, ends[k] - 1)]
+IsNumTextD(s, dec) == IsNumText(ReplaceByte(s, dec, Dot)) /\ (dec = Dot \/ ~Has(s, Dot))
+ReadCellD(f, dec) == LET u == Unquote(f) IN
+                     IF IsNumTextD(u, dec) THEN [t |-> "n", s |-> ReplaceByte(u, dec, Dot)] ELSE [t |-> "s", s |-> u]
+RECURSIVE HexInt(_)
+HexDigit(b) == IF b >= 48 /\ b <= 57 THEN b - 48 ELSE IF b >= 97 /\ b <= 102 THEN b - 87 ELSE IF b >= 65 /\ b <= 70 THEN b - 55 ELSE 0
+HexInt(s) == IF s = <<>> THEN 0 ELSE 16 * HexInt(SubSeq(s, 1, Len(s) - 1)) + HexDigit(s[Len(s)])
+RECURSIVE IntText(_)
+IntText(n) == IF n < 10 THEN <<48 + n>> ELSE IntText(n \div 10) \o <<48 + (n % 10)>>
+\* readAs(types): i = int, h = hexadecimal int, n = number, s = string; beyond the types given: inferred
+\* (cells are compared as numbers: whether an int column yields an integer or a floating point value is not documented)
+ReadTyped(f, ty, dec) == LET u == Unquote(f) IN
+                         CASE ty = 115 -> [t |-> "s", s |-> u]
+                           [] ty = 105 -> [t |-> "n", s |-> IntText(ToInt(u))]
+                           [] ty = 104 -> [t |-> "n", s |-> IntText(HexInt(u))]
+                           [] ty = 110 -> [t |-> "n", s |-> ReplaceByte(u, dec, Dot)]
+                           [] OTHER -> ReadCellD(f, dec)
+\* readAs() on a field that is not of the type asked for: not documented
+IsHexText(u) == u # <<>> /\ {i \in 1..Len(u) : ~(IsDigit(u[i]) \/ (u[i] >= 97 /\ u[i] <= 102) \/ (u[i] >= 65 /\ u[i] <= 70))} = {}
+TypedOK(f, ty, dec) == LET u == Unquote(f) IN
+                       CASE ty = 105 -> AllDigits(u) [] ty = 104 -> IsHexText(u) [] ty = 110 -> IsNumTextD(u, dec) [] ty = 115 -> TRUE [] OTHER -> FALSE
+ParseRowD(l, sep, dec, types) == LET fs == RawFields(l, sep) IN
+                                 [k \in 1..Len(fs) |-> IF k <= Len(types) THEN ReadTyped(fs[k], types[k], dec) ELSE ReadCellD(fs[k], dec)]
+\* the lines of a file: byte order mark dropped, LF or CR LF, the newline that ends the last line starts no further line
+FileLines(file) == LET ls == Lines(Body(file)) IN IF ls[Len(ls)] = <<>> THEN SubSeq(ls, 1, Len(ls) - 1) ELSE ls
+\* what the documentation says the reader infers from the file: ';' separates (then ',' is the decimal symbol), else ',', else tab;
+\* a first line without numbers is a header line
+Detect(first) == IF Has(first, Semi) THEN [sep |-> Semi, dec |-> Comma]
+                 ELSE IF Has(first, Comma) THEN [sep |-> Comma, dec |-> Dot]
+                 ELSE IF Has(first, Tab) THEN [sep |-> Tab, dec |-> Dot] ELSE [sep |-> Comma, dec |-> Dot]
+LooksNumeric(f) == IF f = <<>> THEN FALSE ELSE IsDigit(f[1]) \/ (IF Len(f) >= 2 THEN f[1] = 45 /\ IsDigit(f[2]) ELSE FALSE)
+CsvRead(file, types) ==
+    LET ls == FileLines(file) IN
+    IF ls = <<>> THEN [hdr |-> FALSE, named |-> FALSE, names |-> <<>>, rows |-> <<>>]
+    ELSE LET d == Detect(ls[1])
+             f1 == RawFields(ls[1], d.sep)
+             hdr == {j \in 1..Len(f1) : LooksNumeric(f1[j])} = {}
+             from == IF hdr THEN 2 ELSE 1
+             \* (the names of a header line with quotes in it are not documented: the writer never quotes names)
+             named == hdr /\ ~Has(ls[1], Quote)
+         IN [hdr |-> hdr, named |-> named, names |-> IF named THEN f1 ELSE <<>>,
+             rows |-> [i \in 1..(Len(ls) - from + 1) |-> ParseRowD(ls[i + from - 1], d.sep, d.dec, types)]]
+\* a field with a quote in it is well formed when it stands between quotes and the quotes inside come in pairs; anything else (a quote
+\* in the middle of an unquoted field, text after the closing quote) is not documented
+WellQuoted(f) == IF ~Has(f, Quote) THEN TRUE
+                 ELSE IF Len(f) < 2 THEN FALSE
+                 ELSE LET inner == SubSeq(f, 2, Len(f) - 1)
+                          qs == {i \in 1..Len(inner) : inner[i] = Quote}
+                      IN /\ f[1] = Quote /\ f[Len(f)] = Quote
+                         /\ Cardinality(qs) % 2 = 0
+                         /\ {i \in qs : IF QuotesBefore(inner, i) % 2 = 0 THEN (IF i < Len(inner) THEN inner[i + 1] # Quote ELSE TRUE) ELSE FALSE} = {}
+ReadUnspec(file, types) ==
+    LET ls == FileLines(file) IN
+    IF ls = <<>> THEN FALSE
+    ELSE LET d == Detect(ls[1])
+             f1 == RawFields(ls[1], d.sep)
+             from == IF {j \in 1..Len(f1) : LooksNumeric(f1[j])} = {} THEN 2 ELSE 1
+         IN \E i \in from..Len(ls) : LET fs == RawFields(ls[i], d.sep) IN
+                                      \E k \in 1..Len(fs) : \/ ~WellQuoted(fs[k])
+                                                             \/ (IF k <= Len(types) THEN ~TypedOK(fs[k], types[k], d.dec) ELSE FALSE)
+\* whether an empty line is a row (of one empty cell) is not documented
+DropEmpty(rows) == Filter(rows, LAMBDA r : r # << [t |-> "s", s |-> <<>>] >>)
+\* file[name] / file[i] on a row
+FirstIdx(names, x) == LET m == {j \in 1..Len(names) : names[j] = x} IN CHOOSE j \in m : \A k \in m : j <= k
+ByName(names, row) == [j \in 1..Len(names) |-> LET k == FirstIdx(names, names[j]) IN IF k <= Len(row) THEN row[k] ELSE NoneCell]
+
+\* the file a writer with options o produced for the rows given (rows may be shorter than the header: ended with "\n"):
+\* first line = the names, then the rows, cell for cell; with useQuotes() every string stands between quotes
+QuotedOK(file, rows, o) == LET ls == FileLines(file)
+                               cells == UNION {{<<i, j>> : j \in 1..Len(rows[i])} : i \in 1..Len(rows)}
+                               Raw(p) == RawFields(ls[p[1] + 1], o.sep)
+                           IN {p \in cells : IF rows[p[1]][p[2]].t = "s" /\ p[1] + 1 <= Len(ls)
+                                             THEN (IF p[2] <= Len(Raw(p)) THEN (IF Raw(p)[p[2]] = <<>> THEN TRUE ELSE Raw(p)[p[2]][1] # Quote) ELSE TRUE)
+                                             ELSE FALSE} = {}
+CsvFileRows(file, o) == LET ls == FileLines(file) IN [i \in 1..(Len(ls) - 1) |-> ParseRowD(ls[i + 1], o.sep, o.dec, <<>>)]
+CsvWOK(file, names, rows, o) == LET ls == FileLines(file) IN
+                                /\ ls # <<>>
+                                /\ (IF ls # <<>> THEN ls[1] = JoinSep(names, o.sep) ELSE FALSE)
+                                /\ CsvFileRows(file, o) = NormRows(rows)
+                                /\ (o.q => QuotedOK(file, rows, o))
+\* dialects the documented inference recovers (a single column shows no separator)
+Readable(o, ncols) == \/ (o.sep = Comma /\ o.dec = Dot)
+                      \/ (ncols >= 2 /\ ((o.sep = Semi /\ o.dec = Comma) \/ (o.sep = Tab /\ o.dec = Dot)))
+\* what a reader returns for that file: the rows - preceded by the names when they do not pass for a header line
+NameCells(names) == [j \in 1..Len(names) |-> ReadCellD(names[j], Dot)]
+ReadBack(names, rows) == IF {j \in 1..Len(names) : LooksNumeric(names[j])} = {} THEN NormRows(rows) ELSE <<NameCells(names)>> \o NormRows(rows)
+
+\* ARFF output (file name *.arff): relation, one @attribute line per column (numeric / string / {a,b}), @data, the rows with ' as quote
+\* (q: useQuotes())
+ArffType(ty) == IF ty = <<>> THEN <<110, 117, 109, 101, 114, 105, 99>>                           \* numeric
+                ELSE IF ty = <<115>> THEN <<115, 116, 114, 105, 110, 103>>                      \* string
+                ELSE <<123>> \o ReplaceByte(ty, 124, Comma) \o <<125>>                          \* {a,b}
+Apostrophe == 39
+ArffCell(c, q) == IF c.t = "n" THEN NumS(c)
+               ELSE IF q \/ Has(c.s, Apostrophe) \/ Has(c.s, Comma) THEN <<Apostrophe>> \o Doubled(c.s, Apostrophe) \o <<Apostrophe>> ELSE c.s
+ArffLines(rel, cols, rows, q) ==
+    << <<64, 114, 101, 108, 97, 116, 105, 111, 110, 32>> \o rel >>                                \* @relation <rel>
+    \o [j \in 1..Len(cols) |-> <<64, 97, 116, 116, 114, 105, 98, 117, 116, 101, 32>> \o cols[j].name \o <<32>> \o ArffType(cols[j].ty)]
+    \o << <<64, 100, 97, 116, 97>> >>                                                              \* @data
+    \o [i \in 1..Len(rows) |-> JoinSep([j \in 1..Len(rows[i]) |-> ArffCell(rows[i][j], q)], Comma)]
+\* blank lines carry no meaning in ARFF (a row of one empty string is one)
+ArffOK(file, rel, cols, rows, q) == Filter(FileLines(file), LAMBDA l : l # <<>>) = Filter(ArffLines(rel, cols, rows, q), LAMBDA l : l # <<>>)
+
+-------------------------------------------------------------------------------
 (* model-checking mode: generators *)
 Newline(st) == IF st = "CRLF" THEN <<CR, LF>> ELSE <<LF>>
 TextOf(ls, st) == Flat([i \in 1..Len(ls) |-> ls[i] \o (IF i < Len(ls) \/ st[2] THEN Newline(st[1]) ELSE <<>>)])
 IText == TextOf(itext, istyle)
 
-Init == /\ itext = <<>> /\ isets = <<>>
-        /\ istyle \in (IF Part = "ini" THEN {"LF", "CRLF"} \X BOOLEAN ELSE {<<"LF", TRUE>>})
-        /\ crows = <<>>
-        /\ ccols \in (IF Part = "csv" THEN 1..MaxCols ELSE {1})
+\* growth parts: their alphabets are definitions that the configurations override (MC_IniCsv.tla), so that the configurations
+\* of the other parts need not mention them
+ApiTexts == {}         \* "api": set of [text, exists, sw]: the file the object is opened on
+ApiMuts == {}          \* "api": the calls generated: [m |-> "set", sec, key, val], [m |-> "get", sec, key], [m |-> "cur", sec], ...
+ApiProbes == <<>>      \* "api": names the const queries ask for after the last call
+MaxMuts == 0
+ApiDeep(h, m) == FALSE \* "api": one call beyond MaxMuts is generated for the histories (and next calls) this holds for
+CsvOpts == {}          \* "csvw": set of [sep, dec, q, flush, arff, names, types]
+CsvTypes == {}         \* "csvr": set of readAs() strings (used with the lines of dialect 4)
+CsvLinesOf == <<{}, {}, {}, {}>> \* "csvr": line alphabets: 1 comma, 2 semicolon + decimal comma, 3 tab, 4 typed columns
+NoOpt == <<>>
+EolCell == [t |-> "e"] \* "csvw": pseudo cell: the row is ended early with "\n"
 
-AddLine == /\ Part = "ini" /\ isets = <<>> /\ Len(itext) < MaxLines
-           /\ \E l \in IniLines : itext' = Append(itext, l)
-           /\ UNCHANGED <<istyle, isets, crows, ccols>>
+Init == /\ itext = <<>> /\ isets = <<>>
+        /\ istyle \in (IF Part \in {"ini", "csvr"} THEN {"LF", "CRLF"} \X BOOLEAN ELSE {<<"LF", TRUE>>})
+        /\ crows = <<>>
+        /\ ccols \in (IF Part = "csv" THEN 1..MaxCols ELSE IF Part = "csvr" THEN 1..4 ELSE {1})      \* ("csvr": the dialect)
+        /\ copt \in (IF Part = "csvw" THEN CsvOpts ELSE IF Part = "csvr" /\ ccols = 4 THEN CsvTypes ELSE {NoOpt})
+        /\ ibom \in (IF Part = "csvr" THEN BOOLEAN ELSE {FALSE})
+        /\ ast \in (IF Part = "api" THEN {ApiOpen(ApiStart(t.text, t.exists), t.sw) : t \in ApiTexts} ELSE {NoOpt})
+        /\ ahist = (IF Part = "api" THEN << [m |-> "new", text |-> ast.disk, exists |-> ast.exists, sw |-> ast.sw] >> ELSE <<>>)
+
+Growth == <<ibom, copt, ast, ahist>>
+AddLine == /\ Part \in {"ini", "csvr"} /\ isets = <<>> /\ Len(itext) < MaxLines
+           /\ \E l \in (IF Part = "csvr" THEN CsvLinesOf[ccols] ELSE IniLines) : itext' = Append(itext, l)
+           /\ UNCHANGED <<istyle, isets, crows, ccols, Growth>>
 \* set("section/key", v); a top-level key only where a plain name addresses the top section
 AddSet == /\ Part = "ini" /\ Len(isets) < MaxSets
           /\ \E sk \in SetNames : /\ (IF sk[1] = Top THEN PlainOK(IText) ELSE TRUE)
@@ -224,14 +484,33 @@ AddSet == /\ Part = "ini" /\ Len(isets) < MaxSets
                                   \*  top-level entry, plain names address another section afterwards)
                                   /\ (IF sk[1] = Top /\ SetValues[Len(isets) + 1] = <<>> THEN HasTopEntries(IText) ELSE TRUE)
                                   /\ isets' = Append(isets, [sec |-> sk[1], key |-> sk[2], val |-> SetValues[Len(isets) + 1]])
-          /\ UNCHANGED <<itext, istyle, crows, ccols>>
+          /\ UNCHANGED <<itext, istyle, crows, ccols, Growth>>
 RowsDone == crows = <<>> \/ Len(crows[Len(crows)]) = ccols
 AddCell == /\ Part = "csv"
            /\ \E c \in Cells :
                  IF RowsDone THEN (Len(crows) + 1) * ccols <= MaxCells /\ crows' = Append(crows, <<c>>)
                  ELSE crows' = [crows EXCEPT ![Len(crows)] = Append(@, c)]
-           /\ UNCHANGED <<itext, istyle, isets, ccols>>
-Next == AddLine \/ AddSet \/ AddCell
+           /\ UNCHANGED <<itext, istyle, isets, ccols, Growth>>
+\* "csvw": rows for a writer with options; a row is complete with ccols cells or when ended early
+WCols == Len(copt.names)
+RowDoneW(r) == IF r = <<>> THEN FALSE ELSE Len(r) = WCols \/ r[Len(r)] = EolCell
+RowsDoneW(rows) == IF rows = <<>> THEN TRUE ELSE RowDoneW(rows[Len(rows)])
+StripE(rows) == [i \in 1..Len(rows) |-> SelectSeq(rows[i], LAMBDA c : c # EolCell)]
+AddCellW == /\ Part = "csvw"
+            /\ \E c \in Cells :
+                  IF RowsDoneW(crows) THEN c # EolCell /\ (Len(crows) + 1) * WCols <= MaxCells /\ crows' = Append(crows, <<c>>)
+                  ELSE crows' = [crows EXCEPT ![Len(crows)] = Append(@, c)]
+            /\ UNCHANGED <<itext, istyle, isets, ccols, Growth>>
+\* "api": one more call on the object
+ApiDo == /\ Part = "api" /\ Len(ahist) <= MaxMuts + 1
+         /\ \E m \in ApiMuts :
+               /\ (IF Len(ahist) <= MaxMuts THEN TRUE ELSE ApiDeep(ahist, m))
+               /\ ApiEnabled(ast, m)
+               /\ ast' = ApiStep(ast, m, IF ast.sets = <<>> THEN [bytes |-> ast.disk, exists |-> ast.exists]            \* nothing was set: no write
+                                         ELSE [bytes |-> RefWrite(ast.base, ast.sets), exists |-> TRUE])
+               /\ ahist' = Append(ahist, [c |-> m, r |-> ApiRet(ast, m)])
+         /\ UNCHANGED <<itext, istyle, isets, crows, ccols, ibom, copt>>
+Next == AddLine \/ AddSet \/ AddCell \/ AddCellW \/ ApiDo
 Spec == Init /\ [][Next]_vars
 
 (* properties of the specification itself *)
@@ -243,6 +522,22 @@ RefWriterOK == Part = "ini" => LET t == IText
 CsvRoundTrip == (Part = "csv" /\ RowsDone) => CsvOK(crows, ccols)
 \* the rendering of a number is recognized as a number, no generated string is
 CellsOK == Part = "csv" => \A c \in Cells : (c.t = "n") = IsNumText(Norm(c).s)
+\* growth: the reference writer meets the whole requirement on a write in every state of the object the generator reaches, and
+\* what it wrote reads back (a fresh object on it) as the values the object held, without the blanks around them
+ApiRefOK == (Part = "api" /\ ast # NoOpt) =>
+               (IF ast.open /\ ast.sets # <<>>
+                THEN LET w == RefWrite(ast.base, ast.sets) IN
+                     /\ WriteOK(ast.base, ast.sets, w)
+                     /\ \A k \in KeysOf(ApiMem(ast)) : Lookup(Assigns(w), k[1], k[2]) = Trim(Lookup(ApiMem(ast), k[1], k[2]))
+                ELSE TRUE)
+\* growth: the general reader inverts the writer with options, and recovers the table by inference for the dialects it can infer
+CsvWText == CsvTextO(copt.names, StripE(crows), copt)
+CsvWLaw == (Part = "csvw" /\ RowsDoneW(crows) /\ ~copt.arff) =>
+              /\ CsvWOK(CsvWText, copt.names, StripE(crows), copt)
+              /\ (Readable(copt, WCols) => CsvRead(CsvWText, <<>>).rows = ReadBack(copt.names, StripE(crows)))
+\* growth: newline style and byte order mark do not change what the reader returns
+CsvRText == (IF ibom THEN Bom ELSE <<>>) \o TextOf(itext, istyle)
+CsvRLaw == Part = "csvr" => CsvRead(CsvRText, copt) = CsvRead(TextOf(itext, <<"LF", istyle[2]>>), copt)
 
 -------------------------------------------------------------------------------
 (* emission: one case per transition *)
@@ -252,13 +547,45 @@ IniCase(text, sets) ==
                  ks == SetToSeq(KeysOf(at))
              IN [i \in 1..Len(ks) |-> [sec |-> ks[i][1], key |-> ks[i][2], val |-> Lookup(at, ks[i][1], ks[i][2])]],
      hz |-> IF LastLineHazard(text) THEN {"LastLineNoNewline"} ELSE {}]
+RenderRows(rows) == [i \in 1..Len(rows) |-> [j \in 1..Len(rows[i]) |->
+                        IF rows[i][j].t = "n" THEN [t |-> "n", s |-> NumS(rows[i][j])] ELSE [t |-> "s", s |-> rows[i][j].s]]]
 CsvCase(rows, n) ==
     [k |-> "csv", cols |-> n,
-     rows |-> [i \in 1..Len(rows) |-> [j \in 1..Len(rows[i]) |->
-                  IF rows[i][j].t = "n" THEN [t |-> "n", s |-> NumText(rows[i][j])] ELSE [t |-> "s", s |-> rows[i][j].s]]],
+     rows |-> RenderRows(rows),
      file |-> CsvText(rows, n),
      hz |-> IF \E i \in 1..Len(rows) : \E j \in 1..Len(rows[i]) : TinyScale(rows[i][j]) THEN {"TinyNumberScale"} ELSE {}]
-Emit == IF Part = "ini" THEN PrintT(ToJson(IniCase(TextOf(itext', istyle'), isets')))
-        ELSE IF crows' = <<>> \/ Len(crows'[Len(crows')]) = ccols' THEN PrintT(ToJson(CsvCase(crows', ccols')))
-        ELSE TRUE
+\* growth cases.  The hazards name the findings of the growth round (see checks/C18.py):
+\*   BomFirstLine     the text starts with a byte order mark (the first line was misread)
+\*   ReadPersisted    a missing name was read through the non-const operator[] (a later write stored "name=")
+\*   FailedWriteLines a write failed after something was set (the object kept the lines added for it; the next write read before the first line)
+ApiCase(a, h) ==
+    [k |-> "api", text |-> h[1].text, exists |-> h[1].exists, sw |-> h[1].sw,
+     steps |-> [i \in 1..(Len(h) - 1) |-> h[i + 1]],
+     open |-> a.open,
+     obs |-> ApiObs(a, ApiProbes),
+     hz |-> (IF HasBom(h[1].text) THEN {"BomFirstLine"} ELSE {})
+            \* (the replayer destroys the object at the end of a case: one more write)
+            \cup (IF a.rp \/ (a.open /\ a.sw /\ a.sets # <<>> /\ ReadRisk(a)) THEN {"ReadPersisted"} ELSE {})
+            \cup (IF a.fw THEN {"FailedWriteLines"} ELSE {})]
+\*   QuotesNotUsed    useQuotes() (the strings were written without quotes)
+CsvWCase(rows, o) ==
+    [k |-> "csvw", sep |-> o.sep, dec |-> o.dec, q |-> o.q, flush |-> o.flush, arff |-> o.arff, names |-> o.names, types |-> o.types,
+     rows |-> RenderRows(StripE(rows)),
+     early |-> [i \in 1..Len(rows) |-> rows[i][Len(rows[i])] = EolCell], rel |-> <<116>>,
+     file |-> IF o.arff THEN <<>> ELSE CsvTextO(o.names, StripE(rows), o),
+     readable |-> ~o.arff /\ Readable(o, Len(o.names)),
+     back |-> IF o.arff THEN <<>> ELSE ReadBack(o.names, StripE(rows)),
+     hz |-> IF o.q THEN {"QuotesNotUsed"} ELSE {}]
+\*   LastRowNoNewline the file does not end with a newline (the reader dropped the last row)
+CsvRCase(file, types) ==
+    LET r == CsvRead(file, types) IN
+    [k |-> "csvr", file |-> file, types |-> types, unspec |-> ReadUnspec(file, types), hdr |-> r.named, names |-> r.names, rows |-> r.rows,
+     byname |-> [i \in 1..Len(r.rows) |-> ByName(r.names, r.rows[i])],
+     hz |-> IF file # <<>> /\ ~EndsWithNewline(file) THEN {"LastRowNoNewline"} ELSE {}]
+Emit == CASE Part = "ini" -> PrintT(ToJson(IniCase(TextOf(itext', istyle'), isets')))
+          [] Part = "csv" -> IF crows' = <<>> \/ Len(crows'[Len(crows')]) = ccols' THEN PrintT(ToJson(CsvCase(crows', ccols'))) ELSE TRUE
+          [] Part = "api" -> PrintT(ToJson(ApiCase(ast', ahist')))
+          [] Part = "csvw" -> IF RowsDoneW(crows') THEN PrintT(ToJson(CsvWCase(crows', copt'))) ELSE TRUE
+          [] Part = "csvr" -> PrintT(ToJson(CsvRCase((IF ibom' THEN Bom ELSE <<>>) \o TextOf(itext', istyle'), copt')))
+          [] OTHER -> TRUE
 ===============================================================================
